@@ -13,7 +13,7 @@ ENGINES = {
 
 PROP = {
     "engines": ["btree"],
-    "lean_modules": ["AxVerif.Model.BTree", "AxVerif.Model.Balance", "AxVerif.Lemmas.BTree"],
+    "lean_modules": ["AxVerif.Model.BTree", "AxVerif.Model.Balance", "AxVerif.Lemmas.BTree", "AxVerif.Lemmas.Balance"],
     "rule": "TODO",
     "assumptions": [],
     "partial": "",
